@@ -33,17 +33,25 @@ from bounded.gen_rb import to_tree, to_nested
 from bounded.ref_acl import plain
 
 K = "bounded:C02:"
-VENDORS = [("huawei", "Huawei CE6870-48S6CQ-EI"), ("cisco", "Cisco"), ("arista", "Arista")]
+VENDORS = [("huawei", "Huawei CE6870-48S6CQ-EI"), ("cisco", "Cisco"), ("arista", "Arista"), ("juniper", "Juniper")]
 
+# rows whose first word merely begins with `interface` get the built-in cant_delete default too (the default looks at the
+# beginning of the rule text): `interfaces`, `interface-range x`, `interfaceX`
 ROWS = [
-    ["a", "a b", "a c", "interface x", "interface y", "b 5", "sys z"],
-    ["x", "x y", "description foo", "mtu 9000", "z"],
+    ["a", "a b", "a c", "interface x", "interface y", "b 5", "sys z", "interfaces", "interface-range x", "interfaceX"],
+    ["x", "x y", "description foo", "mtu 9000", "z", "ip address 10.0.0.1 24"],
     ["p", "p q", "q"],
 ]
 RB_TEXTS = [
     "~ %global\n",
     "interface *\n    description ~\n    mtu *\n    ~ %global\na *\n    ~ %global\nb *\n~ %global\n",
+    # a block rule that never removes its row but clears what is below it (as the shipped physical-port rules)
+    "interface * %logic=common.permanent\n    ~ %global\n~ %global\n",
 ]
+# clause (d) "covered deletable rows absent from new are removed" presupposes a logic that emits the negation
+RB_REMOVES = {0: True, 1: True, 2: False, "shipped": False}
+# what the device simulator is told about the shipped rulebook in the hand-made family (rows there have key = whole row)
+SIM_TEXT = {"shipped": "~ %global\n"}
 
 
 # ---------------------------------------------------------------------------------------------------------------------
@@ -136,8 +144,40 @@ def _strip_neg(tree, neg):
     return [[r, _strip_neg(ch, neg)] for r, ch in tree if not r.startswith(neg + " ")]
 
 
+PORT_CHILDREN = {2: ["ip address 10.0.0.1 24", "description foo", "mtu 9000", "z"],
+                 "shipped": ["ip address 10.0.0.1 255.255.255.0", "ipv6 address 2001:db8::1/64"]}
+
+
+def port_case(rnd, idx):
+    """a deletable interface block (one generator says %cant_delete=0) with undeletable lines declared by a second generator,
+    under a rulebook whose block rule is common.permanent (custom text, or the shipped cisco.rul physical-port rule)"""
+    rb = "shipped" if idx % 2 else 2
+    vendor = "cisco" if rb == "shipped" else ["huawei", "cisco", "arista"][idx // 2 % 3]
+    names = ["interface GigabitEthernet0/1", "interface GigabitEthernet0/2"] if rb == "shipped" else ["interface x", "interface y"]
+    kids = PORT_CHILDREN[rb]
+    old = [[n, [[k, []] for k in kids if rnd.random() < 0.8]] for n in names if rnd.random() < 0.9]
+    if rb == 2 and rnd.random() < 0.5:
+        old.append(["sys z", []])
+    new = []
+    for n, ch in old:
+        if n.startswith("interface") and rnd.random() < 0.4:
+            new.append([n, [c for c in ch if rnd.random() < 0.5]])
+    flag = lambda: rnd.choice(["  %cant_delete", "  %cant_delete=1", "  %cant_delete=1", "  %cant_delete=0", ""])
+    first = lambda k: rnd.choice([k.split()[0] + " " + k.split()[1], k.split()[0] + " ~", k]) if len(k.split()) > 2 else k
+    g0 = "interface *  %cant_delete=0" + "".join("\n    %s%s" % (first(k), flag()) for k in kids if rnd.random() < 0.4)
+    g1 = "interface *" + rnd.choice(["", "  %cant_delete=0", "  %cant_delete=0", "  %cant_delete=1"]) + \
+         "".join("\n    %s%s" % (first(k), flag()) for k in kids if rnd.random() < 0.8)
+    gens = [dict(name="G0", acl=g0), dict(name="G1", acl=g1)]
+    if rnd.random() < 0.3:
+        gens = gens[::-1]
+        gens[0]["name"], gens[1]["name"] = "G0", "G1"
+    return dict(vendor=vendor, rb=rb, gens=gens, old=old, new=new, mode="conformant", via_gen=False)
+
+
 def random_case(rnd, idx):
-    vendor = VENDORS[idx % len(VENDORS)][0] if idx % 4 else "huawei"
+    if idx % 8 == 7:
+        return port_case(rnd, idx // 8)
+    vendor = VENDORS[idx % len(VENDORS)][0] if idx % 5 else "huawei"
     neg = ref_acl.NEGATION[vendor]
     old = rand_tree(rnd, 0, rnd.choice([0.4, 0.6, 0.8]))
     mode = rnd.choice(["conformant", "conformant", "conformant", "raw"])
@@ -158,7 +198,7 @@ def random_case(rnd, idx):
             acl += "\n" + rnd.choice(["interface *\n    ~", "interface * %cant_delete=0\n    ~ %global", "a ~", "*", "interface *"])
         gens.append(dict(name="G%d" % i, acl=acl))
     return dict(vendor=vendor, rb=idx % len(RB_TEXTS), gens=gens, old=old, new=newraw, mode=mode,
-                via_gen=(vendor == "huawei" and mode == "conformant" and idx % 3 == 0))
+                via_gen=(vendor == "huawei" and mode == "conformant" and idx % 2 == 0))
 
 
 HAND = [
@@ -177,6 +217,17 @@ HAND = [
     # a generator yielding the delete command of an undeletable row
     dict(vendor="huawei", rb=0, gens=[dict(name="G0", acl="interface *\n    ~")],
          old=[["interface x", [["mtu 9000", []]]]], new=[["undo interface x", []]], mode="raw", via_gen=False),
+    # the built-in default also holds for rule texts that merely begin with `interface`
+    dict(vendor="juniper", rb=0, gens=[dict(name="G0", acl="interfaces\n    ~ %global\ninterface-range *\n    ~")],
+         old=[["interfaces", [["x", [["p", []]]]]], ["interface-range x", [["z", []]]], ["sys z", []]], new=[], mode="conformant", via_gen=False),
+    dict(vendor="huawei", rb=0, gens=[dict(name="G0", acl="interfaceX\ninterface-range ~")],
+         old=[["interfaceX", []], ["interface-range x", [["z", []]]]], new=[], mode="conformant", via_gen=False),
+    # deletable block kept by a permanent block rule: the undeletable line of the second generator stays
+    dict(vendor="cisco", rb=2, gens=[dict(name="G0", acl="interface * %cant_delete=0"), dict(name="G1", acl="interface *\n    ip address %cant_delete")],
+         old=[["interface x", [["ip address 10.0.0.1 24", []], ["mtu 9000", []]]]], new=[], mode="conformant", via_gen=False),
+    dict(vendor="cisco", rb="shipped", gens=[dict(name="G0", acl="interface * %cant_delete=0"),
+                                             dict(name="G1", acl="interface *\n    ip address %cant_delete")],
+         old=[["interface GigabitEthernet0/1", [["ip address 10.0.0.1 255.255.255.0", []]]]], new=[], mode="conformant", via_gen=False),
 ]
 
 
@@ -193,7 +244,11 @@ def env(vendor, rbi):
         logging.disable(logging.CRITICAL)
         from annet.vendors import registry_connector
         hw = gen_rb.hw_of(dict(VENDORS)[vendor])
-        rb = gen_rb.compile_rb(hw.vendor, RB_TEXTS[rbi])
+        if rbi == "shipped":
+            from annet import rulebook
+            rb = rulebook.get_rulebook(hw)
+        else:
+            rb = gen_rb.compile_rb(hw.vendor, RB_TEXTS[rbi])
         fmt = registry_connector.get().match(hw).make_formatter()
         e = _env[k] = types.SimpleNamespace(hw=hw, rb=rb, fmt=fmt, stub=types.SimpleNamespace(hw=hw, hostname="stub", fqdn="stub"))
     return e
@@ -256,6 +311,16 @@ def run_via_gen(case, e, old, new, rules):
 
 
 # ---------------------------------------------------------------------------------------------------------------------
+def _tree_paths(patch, prefix=()):
+    out = []
+    for item in patch.itms:
+        row = str(item.row)
+        out.append(prefix + (row,))
+        if item.child is not None:
+            out.extend(_tree_paths(item.child, prefix + (row,)))
+    return out
+
+
 def _node(tree, path):
     n = tree
     for k in path:
@@ -281,7 +346,7 @@ def check(case):
     vendor = case["vendor"]
     neg = ref_acl.NEGATION[vendor]
     e = env(vendor, case["rb"])
-    rbt = RB_TEXTS[case["rb"]]
+    rbt = SIM_TEXT[case["rb"]] if case["rb"] in SIM_TEXT else RB_TEXTS[case["rb"]]
     old = to_tree(case["old"])
     rules = united_rules(case["gens"])
     info = dict(ambiguous=False, amb_cmds=0, cmds=0, uncovered=0, protected=0, via_gen=False)
@@ -305,8 +370,8 @@ def check(case):
         diff, patch = _diff_and_patch(e.stub, o, n, acl_rules, facl, add_comments=False, rb=e.rb)
         cmds = [tuple(str(x) for x in p) for p in e.fmt.cmd_paths(patch).keys()]
         info["cmds"] += len(cmds)
-        # (a)
-        for p in cmds:
+        # (a)  (flat vendors: the rows of the patch tree with their block paths are the addressed lines)
+        for p in (_tree_paths(patch) if vendor in devsim.FLAT else cmds):
             if len(p) > 1 and p[-1] in devsim.EXIT[vendor]:
                 continue
             ok, r = ref_acl.ref_covers(p, rules, vendor)
@@ -320,7 +385,11 @@ def check(case):
                 fails.append((K + "patch-command-outside-acl", "%s: the command %r is not covered by the united ACL at %r" %
                               (how, " / ".join(p), " / ".join(r.uncovered[0])), "every level of every command path covered", dict(cmds=cmds)))
         # the device holds the whole old configuration
-        dev2 = devsim.dev_apply(old, cmds, rbt, vendor)
+        try:
+            dev2 = devsim.dev_apply(old, cmds, rbt, vendor, schema=[n, exp_new])
+        except devsim.Undecodable:
+            info["ambiguous"] = True       # a flat command with two / no readings in this hierarchy: outside the scope
+            continue
         # (b)
         for u in r_old.uncovered:
             if all(_node(dev2, u[:i]) is not None for i in range(1, len(u))):
@@ -351,12 +420,12 @@ def check(case):
                                   "row kept", dict(cmds=cmds, device=to_nested(dev2))))
         # (d)  (not for a `new` that carries delete commands: it may contradict itself)
         has_neg = any(x.startswith(neg + " ") for p in ref_acl.paths(to_tree(case["new"])) for x in p)
-        for p in ([] if has_neg else ref_acl.paths(exp_new)):
+        for p in ([] if (has_neg or case["rb"] == "shipped") else ref_acl.paths(exp_new)):
             if _node(dev2, p) is None:
                 fails.append((K + "acl-scope:covered-row-not-added", "%s: the covered row %r of new does not reach the device" % (how, " / ".join(p)),
                               "row present", dict(cmds=cmds, device=to_nested(dev2))))
                 break
-        if not has_neg:
+        if not has_neg and RB_REMOVES[case["rb"]]:
             for p in ref_acl.paths(r_old.tree):
                 if p in newp or not _deletable(r_old.cands[p]):
                     continue
@@ -371,7 +440,7 @@ def check(case):
 
 # ---------------------------------------------------------------------------------------------------------------------
 def n_cases(tier):
-    return 40000 if tier == "quick" else 700000
+    return 30000 if tier == "quick" else 450000
 
 
 def cases(tier, seed, part, nparts):
